@@ -5,6 +5,7 @@ CONSTANTS
   Stems = {"def", "ovr"}
   SupTpls = {FALSE, TRUE}
   NsVals = {FALSE, TRUE}
+  Shapes = {"plain", "sibling", "rsibling"}
   Wipes = FALSE
   PFiles = {}
   MaxLo = 1
@@ -15,6 +16,7 @@ CONSTANTS
   QuickOnly = TRUE
   FwdOmitToList = FALSE
   ListDeps = FALSE
+  OwnByPrefix = FALSE
   ListUserSup = FALSE
 INVARIANT Emit
 CHECK_DEADLOCK FALSE
